@@ -56,7 +56,7 @@ def resStr : Res → String
   | .ok => "ok" | .notActive => "notactive" | .valueError => "valueerror"
   | .assertion => "assertion" | .fault f => "fault:" ++ faultStr f | .invalid => "invalid"
 
-def sortNats (l : List Nat) : List Nat := (l.toArray.qsort (· < ·)).toList
+def qubitmgrSortNats (l : List Nat) : List Nat := (l.toArray.qsort (· < ·)).toList
 
 /-- snapshot after one operation; for flush/close also the events that were executed -/
 def qmSnap (c : Cfg) (before : St) (op : Op) (after : St) (r : Res) : Json :=
@@ -68,7 +68,7 @@ def qmSnap (c : Cfg) (before : St) (op : Op) (after : St) (r : Res) : Json :=
        | _ => before.evs.take (okPrefix c.maxq before.unit before.evs))
     else []
   Json.mkObj [("r", Json.str (resStr r)), ("h", hs),
-    ("ev", Json.arr (executed.map evToJson).toArray), ("u", ofNats (sortNats after.unit))]
+    ("ev", Json.arr (executed.map evToJson).toArray), ("u", ofNats (qubitmgrSortNats after.unit))]
 
 def qmRun (c : Cfg) : St → List Op → List Json
   | _, [] => []
